@@ -4,6 +4,7 @@ package px
 
 import (
 	"fmt"
+	"regexp"
 	"strings"
 	"sync"
 
@@ -86,7 +87,7 @@ func OutcomeClass(o sb.Outcome) (class, kind, msg string) {
 		return "ok", "", ""
 	case "fatal":
 		if o.Kind == "UncaughtThrow" {
-			return "throw", "", o.Message
+			return "throw", "", StripTrace(o)
 		}
 		return "fatal", o.Kind, ""
 	case "exception":
@@ -94,6 +95,17 @@ func OutcomeClass(o sb.Outcome) (class, kind, msg string) {
 		return "throw", "", o.Message
 	}
 	return o.Class, o.Kind, o.Message
+}
+
+var traceRe = regexp.MustCompile(`(?s)\n=+ Stacktrace =+\n.*$`)
+
+// StripTrace returns the uncaught exception's own message: the VM appends a stack trace block to it.
+func StripTrace(o sb.Outcome) string {
+	m := o.FullMessage
+	if m == "" {
+		m = o.Message
+	}
+	return traceRe.ReplaceAllString(m, "")
 }
 
 func joinW(w []string) string { return strings.Join(w, "") }
